@@ -194,6 +194,9 @@ def run(tier):
     # every string over the alphabet of spec/Quoting.tla, both quotes, every kind of string slot
     from .. import quoting
     quoting.run(ck, "C01", tier, loads, impl.dumper)
+    # every number lexeme over the alphabet of spec/Numbers.tla in every kind of numeric slot
+    from .. import numbers
+    numbers.run(ck, "C01", tier, loads, dumps)
     verdicts = tracecheck.validate("TraceRoundTrip", records, "c01", ck=ck, chunk=800, canary=canary)
     skipped = 0
     for tid, v in verdicts.items():
